@@ -671,7 +671,8 @@ class Inliner(object):
                     new = new + make(None)
                 return prelude + (new or [ast.copy_location(ast.Pass(), st)])
         # embedded call: hoist into a temporary (only for simple statements, whose sub-expressions are evaluated once, in order)
-        if isinstance(st, (ast.Assign, ast.AugAssign, ast.Expr, ast.Return, ast.If, ast.Assert)):
+        if isinstance(st, (ast.Assign, ast.AugAssign, ast.Expr, ast.Return, ast.If, ast.Assert, ast.For)):
+            # (the iterable of a for loop is evaluated once, before the loop)
             tmp = '_inl_%s_%d' % (hnode.name.strip('_'), getattr(call, 'lineno', 0))
 
             def make(v):
